@@ -185,8 +185,9 @@ func (p *wat2wasmWorker) buildImportSection() error {
 		case token.MEMORY:
 			spec.Type = wasm.ExternTypeMemory
 			spec.DescMem = &wasm.Memory{
-				Min: uint32(x.Memory.Pages),
-				Max: uint32(x.Memory.MaxPages),
+				Min:          uint32(x.Memory.Pages),
+				Max:          uint32(x.Memory.MaxPages),
+				IsMaxEncoded: x.Memory.MaxPages > 0,
 			}
 		case token.GLOBAL:
 			spec.Type = wasm.ExternTypeGlobal
